@@ -450,7 +450,7 @@ func genTxt(g *gen, th bool, scale int) {
 			g.add(len(b) > 0, "%s dec %s", c, hx(b))
 		}
 	}
-
+	genTxtPieces(g, th)
 }
 
 func genRadix(g *gen, th bool, scale int) {
